@@ -46,7 +46,7 @@ func NonTrivial(e *Exec) bool {
 		if o.K == "SetVar" || o.K == "UpdateVar" {
 			wrote = true
 		}
-		if (o.K == "Stabilize") && wrote {
+		if (o.K == "Stabilize" || o.K == "ParStabilize") && wrote {
 			n := 0
 			for _, ev := range e.Samples[i].Events {
 				if ev.K == "EvInvoked" || ev.K == "EvBindFn" {
